@@ -132,7 +132,7 @@ func (p *parser) jumpLength() (int, error) {
 		return length, err
 	}
 
-	if length <= 0 {
+	if length <= 0 || offset+length < offset {
 		return length, errors.New("Invalid length")
 	}
 
